@@ -66,12 +66,18 @@ ConstsOK(e) ==
                      MulM(a[1][3], M2(a[2][1], a[2][2], a[3][1], a[3][2]), m), m)
      IN det # Zero
 
+\* a sponge session (off-circuit PoseidonState or in-circuit PoseidonChip): the squeeze outputs must be the state machine's
+SpongeOK(e) ==
+  /\ e.status \in {"ok", "sat"}
+  /\ e.outs = SpRun(e.len, e.ops, pc.mds, pc.rc, BlsR)
+TSponge == l <= Len(Rec) /\ Ev.ev = "Sponge" /\ SpongeOK(Ev) /\ l' = l + 1 /\ UNCHANGED pc
+
 TInit == l = 1 /\ pc = [mds |-> <<>>, rc |-> <<>>]
 THeader == l <= Len(Rec) /\ Ev.ev = "header" /\ Trim(Ev.native) = BlsR /\ l' = l + 1 /\ UNCHANGED pc
 TConsts == l <= Len(Rec) /\ Ev.ev = "PoseidonConstants" /\ ConstsOK(Ev) /\ pc' = [mds |-> Ev.mds, rc |-> Ev.rc] /\ l' = l + 1
 TOp == l <= Len(Rec) /\ Ev.ev = "Op" /\ OpOK(Ev) /\ l' = l + 1 /\ UNCHANGED pc
 TCpu == l <= Len(Rec) /\ Ev.ev = "PoseidonCpu" /\ CpuOK(Ev) /\ l' = l + 1 /\ UNCHANGED pc
-TraceSpec == TInit /\ [][THeader \/ TConsts \/ TOp \/ TCpu]_<<l, pc>>
+TraceSpec == TInit /\ [][THeader \/ TConsts \/ TOp \/ TCpu \/ TSponge]_<<l, pc>>
 
 TraceAccepted ==
   LET d == TLCGet("stats").diameter IN
